@@ -214,6 +214,21 @@ impl<'a, T: Elem + SatisfyTraits<Tr>, M: MemCaps, Tr: ?Sized + TrCaps> Cx<'a, T,
         });
     }
 
+    /// The typed view that just performed an operation is still a faithful view of its vector (same storage, length,
+    /// capacity, last element): a view is allowed to be kept and used again.
+    fn view_still_coherent(&mut self, tv: &any_vec::AnyVecMut<T, M>, v: usize, what: &str) {
+        let (tp, tl, tc) = (tv.as_ptr() as usize, tv.len(), tv.capacity());
+        let last = tv.as_slice().last().map(probe_val);
+        let av = self.vec(v);
+        let (ep, el, ec) = (av.as_bytes().as_ptr() as usize, av.len(), av.capacity());
+        let elast = if el > 0 && el <= ec { av.get(el - 1).and_then(|e| e.downcast_ref::<T>().map(probe_val)) } else { None };
+        if tl != el || tc != ec || (tp != ep && size_of::<T>() != 0) || (el <= ec && last != elast) {
+            self.note(format!(
+                "the typed view kept after {what} is stale: it reports storage {tp:#x} len {tl} capacity {tc} last {last:?}; the vector has storage {ep:#x} len {el} capacity {ec} last {elast:?}"
+            ));
+        }
+    }
+
     fn check_handle<H: AnyValue>(&mut self, h: &H, expect_addr: Option<usize>, what: &str) {
         if h.value_typeid() != TypeId::of::<T>() {
             self.note(format!("{what}: value_typeid() is not the element type"));
@@ -598,11 +613,13 @@ impl<'a, T: Elem + SatisfyTraits<Tr>, M: MemCaps, Tr: ?Sized + TrCaps> Cx<'a, T,
             Op::Clear { v } => self.vec(*v).clear(),
             Op::TPush { v, id } => {
                 let mut tv = self.vec(*v).downcast_mut::<T>().expect("typed view of the right type");
-                tv.push(T::make(*id))
+                tv.push(T::make(*id));
+                self.view_still_coherent(&tv, *v, "push");
             }
             Op::TInsert { v, at, id } => {
                 let mut tv = self.vec(*v).downcast_mut::<T>().expect("typed view of the right type");
-                tv.insert(*at, T::make(*id))
+                tv.insert(*at, T::make(*id));
+                self.view_still_coherent(&tv, *v, "insert");
             }
             Op::TPop { v } => {
                 let mut tv = self.vec(*v).downcast_mut::<T>().expect("typed view of the right type");
@@ -610,20 +627,26 @@ impl<'a, T: Elem + SatisfyTraits<Tr>, M: MemCaps, Tr: ?Sized + TrCaps> Cx<'a, T,
                     None => self.val(Val::None),
                     Some(t) => self.val(probe_val(&t)),
                 }
+                self.view_still_coherent(&tv, *v, "pop");
             }
             Op::TRemove { v, at } => {
                 let mut tv = self.vec(*v).downcast_mut::<T>().expect("typed view of the right type");
                 let t = tv.remove(*at);
                 self.val(probe_val(&t));
+                drop(t);
+                self.view_still_coherent(&tv, *v, "remove");
             }
             Op::TSwapRemove { v, at } => {
                 let mut tv = self.vec(*v).downcast_mut::<T>().expect("typed view of the right type");
                 let t = tv.swap_remove(*at);
                 self.val(probe_val(&t));
+                drop(t);
+                self.view_still_coherent(&tv, *v, "swap_remove");
             }
             Op::TClear { v } => {
                 let mut tv = self.vec(*v).downcast_mut::<T>().expect("typed view of the right type");
-                tv.clear()
+                tv.clear();
+                self.view_still_coherent(&tv, *v, "clear");
             }
             Op::Get { v, at, how } => self.exec_get(*v, *at, *how),
             Op::Iter { v, how, rev } => self.exec_iter(*v, *how, *rev),
@@ -633,7 +656,10 @@ impl<'a, T: Elem + SatisfyTraits<Tr>, M: MemCaps, Tr: ?Sized + TrCaps> Cx<'a, T,
                 if *typed {
                     let mut tv = self.vec(*v).downcast_mut::<T>().expect("typed view of the right type");
                     let it = tv.drain((lo, hi));
-                    self.run_script_typed(it, script, *end)
+                    self.run_script_typed(it, script, *end);
+                    if *end != End::Forget {
+                        self.view_still_coherent(&tv, *v, "drain");
+                    }
                 } else {
                     let it = self.vec(*v).drain((lo, hi));
                     self.run_script(it, script, *end)
@@ -1117,6 +1143,9 @@ impl<'a, T: Elem + SatisfyTraits<Tr>, M: MemCaps, Tr: ?Sized + TrCaps> Cx<'a, T,
                 let it = tv.splice(range, SharedQueue(q.clone()));
                 monalloc::user_scope(|| ids[n0..].iter().for_each(|i| q.borrow_mut().push_back(T::make(*i))));
                 self.run_script_typed(it, script, end);
+                if end != End::Forget {
+                    self.view_still_coherent(&tv, v, "splice");
+                }
             } else {
                 let it = self.vec(v).splice(range, SharedQueue(q.clone()).map(AnyValueWrapper::new));
                 monalloc::user_scope(|| ids[n0..].iter().for_each(|i| q.borrow_mut().push_back(T::make(*i))));
@@ -1139,6 +1168,9 @@ impl<'a, T: Elem + SatisfyTraits<Tr>, M: MemCaps, Tr: ?Sized + TrCaps> Cx<'a, T,
             let mut tv = self.vec(v).downcast_mut::<T>().expect("typed view of the right type");
             let it = tv.splice(range, UserIter::new(vals.into_iter(), delta));
             self.run_script_typed(it, script, end);
+            if end != End::Forget {
+                self.view_still_coherent(&tv, v, "splice");
+            }
             return;
         }
         match repl {
